@@ -654,6 +654,84 @@ func runC07(c *engine.Ctx) {
 	// ---- R9 the route tables are read under their lock (shared with C16.R1): a lookup that races with a registration
 	// can miss the protected route, and "no route" means "no credential check" ----
 	c16MapsRule(c, engine.AnalyzeLocks(c.P), "R9")
+
+	// ---- R10 a tcpmux group checks CONNECT credentials of one kind only ----
+	c.Rule("R10", "a proxy joins an existing tcpmux group only when its httpUser and its httpPassword both equal the ones the group's route was registered with (the route checks the first member's credentials for every member)")
+	if tmgT := c.P.Named("server/group", "TCPMuxGroup"); tmgT != nil {
+		userF := field(c, "server/group", "TCPMuxGroup", "username")
+		passF := field(c, "server/group", "TCPMuxGroup", "password")
+		lnsF := field(c, "server/group", "TCPMuxGroup", "lns")
+		k := 0
+		var ms []*ssa.Function
+		for _, mf := range methodsOf(c.P, tmgT) {
+			ms = append(ms, mf)
+		}
+		sort.Slice(ms, func(i, j int) bool { return ms[i].Name() < ms[j].Name() })
+		for _, f := range ms {
+			if userF == nil || passF == nil || lnsF == nil {
+				break
+			}
+			f := f
+			engine.ForEachInstr(f, func(in ssa.Instruction) {
+				st, ok := in.(*ssa.Store)
+				if !ok {
+					return
+				}
+				if lf, _ := engine.LoadedField(st.Addr); lf != lnsF {
+					return
+				}
+				// only appends (a member joins); removals shrink the slice
+				if src := engine.Provenance(st.Val, engine.ProvOpts{}); len(src.Allocs) == 0 && !strings.Contains(src.Summary(), "append") {
+					isAppend := false
+					for v := range src.Values {
+						if cc, ok := v.(*ssa.Call); ok {
+							if b, ok := cc.Call.Value.(*ssa.Builtin); ok && b.Name() == "append" {
+								if len(cc.Call.Args) == 2 {
+									if _, isSlice := cc.Call.Args[1].(*ssa.Slice); isSlice {
+										// append(a[:i], a[i+1:]...) is a removal; append(lns, ln) passes a fresh 1-element slice
+										if sl := cc.Call.Args[1].(*ssa.Slice); sl.Low == nil && sl.High == nil {
+											isAppend = true
+										} else if _, fromAlloc := sl.X.(*ssa.Alloc); fromAlloc {
+											isAppend = true
+										}
+									}
+								}
+							}
+						}
+					}
+					if !isAppend {
+						return
+					}
+				}
+				k++
+				cfgField := func(name string) func(ssa.Value) bool {
+					return func(v ssa.Value) bool {
+						lf, _ := engine.LoadedField(engine.Unwrap(v))
+						return lf != nil && lf.Name() == name && lf.Pkg() != nil && strings.HasSuffix(lf.Pkg().Path(), "/pkg/util/vhost")
+					}
+				}
+				c.AllPaths(fmt.Sprintf("%s>member-credentials#%d", c.P.FuncName(f), k), engine.PathCheck{Fn: f, Sink: engine.Is(in), Pred: func(ps *engine.PathState) string {
+					for _, l := range ps.Lits {
+						if arg, ok := lenIsZero(l); ok {
+							if lf, _ := engine.LoadedField(arg); lf == lnsF {
+								return "" // the first member: it defines the group's credentials
+							}
+						}
+					}
+					eu, ku := ps.Equal(loadOfField(userF), cfgField("Username"))
+					ep, kp := ps.Equal(loadOfField(passF), cfgField("Password"))
+					if !(ku && eu) {
+						return "a later member joins on a path where its user name was not found equal to the group's"
+					}
+					if !(kp && ep) {
+						return "a later member joins on a path where its password was not found equal to the group's: the group's route keeps checking the first member's password for this member's backend"
+					}
+					return ""
+				}}, "later members share the group's CONNECT credentials")
+			})
+		}
+		c.Floor(k, 2)
+	}
 }
 
 // checkCredentialPlumbing: every vhost.RouteConfig the server builds for a proxy takes Username from the proxy's
